@@ -481,6 +481,25 @@ func ruleR14(p *Prog) []Ob {
 				ob.Status, ob.Msg = Discharged, "the offset is probed while holding the token; the call parks on the broadcast channel received in the same token section"
 			}
 			obs = append(obs, ob)
+			// d: a parked waiter is released only by the broadcast or by its own context
+			{
+				ob := Ob{Rule: "R14", Inst: "d:park-cases:" + funcLabel(fn), Props: props, Pos: p.at(sel), Func: funcLabel(fn), Nontrivial: true}
+				var bad []string
+				for i, st := range sel.States {
+					switch {
+					case st.Dir == types.RecvOnly && received(st.Chan):
+					case st.Dir == types.RecvOnly && isCtxDone(st.Chan):
+					default:
+						bad = append(bad, fmt.Sprintf("%s: case %d of the parking select is neither the broadcast channel nor Done() of the caller's context", p.at(sel), i))
+					}
+				}
+				if len(bad) > 0 {
+					ob.Status, ob.Msg, ob.Path = Violated, "a parked waiter can be released by something other than a publish, a close or the end of its own context: the blocking call then returns for nothing", bad
+				} else {
+					ob.Status, ob.Msg = Discharged, fmt.Sprintf("the parking select has %d cases: the broadcast channel and Done() of the caller's context", len(sel.States))
+				}
+				obs = append(obs, ob)
+			}
 		case len(stores) > 0: // the setting method
 			ob := Ob{Rule: "R14", Inst: "c:broadcast:" + funcLabel(fn), Props: props, Pos: p.at(stores[0]), Func: funcLabel(fn), Nontrivial: true}
 			var bad []string
@@ -570,4 +589,14 @@ func ruleR14(p *Prog) []Ob {
 		}
 	}
 	return obs
+}
+
+// isCtxDone: v is Done() invoked on a context.Context parameter of the enclosing function.
+func isCtxDone(v ssa.Value) bool {
+	c, ok := v.(*ssa.Call)
+	if !ok || !c.Common().IsInvoke() || c.Common().Method.Name() != "Done" {
+		return false
+	}
+	pr, ok := c.Common().Value.(*ssa.Parameter)
+	return ok && typeIs(pr.Type(), "context", "Context")
 }
